@@ -52,7 +52,7 @@ P['C07'] = dict(
     level_note='Bounds: <= 3 publishes of QoS 1 or 2 (PUBREC succeeding or failing, PUBREL retransmitted after a reconnect counts), <= 1 total-cancellation, <= 1 reconnect, 7 (quick) / 9 (thorough) steps; external events happen at quiescent points (handler queue drained). Stub world (shadow/) replaces OS sockets, timers and resolver; writes complete atomically in this harness.',
     assumptions=['environment = shadow/vk_world.hpp: FIFO executor, virtual-time timers, stream socket and resolver completed by the harness', 'external events are injected only when the handler queue is empty'],
     jobs=[dict(name='receive_maximum', tu='harness/w_c07.cpp', entry='h_c07', engine='B', clock=True, defs_quick={'VK_STEPS': 7}, defs_thorough={'VK_STEPS': 9},
-               reach=['two-in-flight', 'acked', 'reconnected', 'a-publish-completed', 'qos2-publish', 'pubcomp', 'failing-pubrec'], samples=10)])
+               reach=['two-in-flight', 'acked', 'reconnected', 'a-publish-completed', 'qos2-publish', 'pubcomp', 'failing-pubrec', 'rejected-request'], samples=10)])
 
 _pub_assume = ['environment = shadow/vk_world.hpp: FIFO executor, virtual-time timers, stream socket and resolver completed by the harness', 'external events are injected only when the handler queue is empty',
                'broker model: answers what it received (any listed reason code, any short form, any chunking), or sends one adversarial packet (unknown id, wrong type, inadmissible code, oversize property length); it never acknowledges the same packet twice, and it never sends a well-formed final acknowledgement bearing an identifier for which no exchange is open on its side while the client is writing a PUBLISH with that identifier (no client can tell that from an acknowledgement overtaking the write completion)']
@@ -62,7 +62,8 @@ P['C01'] = dict(
     level_text='The real mqtt_client publishes QoS 1/2 messages with symbolic topic/payload bytes, RETAIN and Message Expiry against a broker model whose every reaction (correct ack with any listed code and short form, wrong type, unknown id, inadmissible code, oversize property length, any chunking, connection loss + reconnect) is explored up to the step bound. Monitor: a completion without error implies that the reference decoder found exactly the requested PUBLISH on the wire of some connection and that the broker afterwards sent the final acknowledgement for that id with the reason code the handler received, and that the Reason String handed to the handler is the one contained in that PUBACK / PUBCOMP (present or absent, symbolic character).',
     level_note='Bounds: 1 publish of either QoS and 6 steps (quick) / 2 publishes (QoS 2 then QoS 1) and 7 steps (thorough), 1 adversarial packet, 1 reconnect; topics/payloads of 2 bytes (one symbolic each). Stub world replaces sockets/timers/resolver; a write is delivered entirely or not at all.',
     assumptions=_pub_assume,
-    jobs=[_pub_job('publish_truthful', 1, 6, 7, ['puback', 'pubrec', 'pubcomp', 'bad-packet', 'reconnected', 'success-checked', 'early-delivery', 'ack-with-properties'])])
+    jobs=[_pub_job('publish_truthful', 1, 6, 7, ['puback', 'pubrec', 'pubcomp', 'bad-packet', 'reconnected', 'success-checked', 'early-delivery', 'ack-with-properties']),
+          dict(name='publish_stale_ack', tu='harness/w_pub.cpp', entry='h_pub_stale', engine='B', clock=True, defs={'VK_MODE': 1, 'VK_STEPS': 6, 'VK_REQS': 1}, reach=['stale-ack', 'second-publish-was-throttled', 'second-publish-was-queued-behind-a-write', 'second-checked'], samples=8)])
 P['C02'] = dict(
     level_text='Same exploration as C01 with the no-loss monitor: no accepted, un-cancelled publish completes with a transport error or try_again at any point, and from every explored state a fault-free suffix (broker reachable, answers everything) completes every request. Retransmission with the same packet identifier is checked by C03\'s monitor.',
     level_note='Bounded liveness only: the suffix is at most 10 rounds; "eventually" beyond it is not claimed. Faults explored: connection reset at quiescent points (with a write in progress failing, or succeeding locally while its bytes are lost), lost acknowledgements, one malformed/unsolicited packet, the broker obtaining a write before the client sees it complete; one or two requests, with and without Receive Maximum 1; the connection dies by reset, by orderly close (eof / broken pipe), by abort, or is noticed by the reader only while a write is in flight (that write ends with operation_aborted when the client closes the old socket). Job no_silent_loss_failed_attempts: before the client is connected again, one (quick) / two (thorough) attempts fail - TCP connect refused, CONNECT answered with CONNACK 0x88, silent broker until the 5 s timer, name resolution error - and no PUBLISH may appear on a connection whose CONNECT was not accepted.',
@@ -96,7 +97,7 @@ P['C04'] = dict(
     level_note='Bounds: 2 inbound messages and one request of the application (whose packet identifier equals the one the broker uses), 1 connection loss, 5 (quick) / 6 (thorough) steps; backlog limit 65535 of the receive channel not reached. The broker retransmits only after a reconnect that resumes the session (MQTT-4.4.0-1).',
     assumptions=_pub_assume[:2] + ['broker model is a conformant MQTT sender: DUP retransmission of unacknowledged PUBLISH and of PUBREL only after a reconnect with Session Present 1'],
     jobs=[dict(name='inbound', tu='harness/w_recv.cpp', entry='h_recv', engine='B', clock=True, defs={'VK_MSGS': 2}, defs_quick={'VK_STEPS': 5}, defs_thorough={'VK_STEPS': 6},
-               reach=['qos0-delivered', 'qos1-delivered', 'qos2-delivered', 'pubrel-sent', 'pubcomp-received', 'session-lost', 'session-resumed', 'publish-retransmitted', 'pubrel-retransmitted', 'write-lost-in-flight', 'own-publish', 'early-delivery'], samples=10)])
+               reach=['qos0-delivered', 'qos1-delivered', 'qos2-delivered', 'pubrel-sent', 'pubcomp-received', 'session-lost', 'session-resumed', 'publish-retransmitted', 'pubrel-retransmitted', 'write-lost-in-flight', 'own-publish', 'early-delivery', 'reconnect-refused-first'], samples=10)])
 
 P['C05'] = dict(
     level_text='On the real mqtt_client: up to 3 operations (publish QoS 0/1/2, subscribe, unsubscribe, a request rejected by validation) plus async_run and async_receive, interleaved with write completions, broker answers, per-operation cancellation (total and terminal), cancel(), async_disconnect (DISCONNECT written or not: then the 5 s timer fires), destruction and connection loss in every order up to the step bound, followed by async_run again. Monitors: every handler at most once and never inside the initiating call; after a stop every operation including async_run and async_receive has completed, the handler queue is empty, no socket/resolver operation is pending and no timer is armed. Job stop_during_handshake: the same stop events striking at every boundary between two completion handlers of a first connection attempt or a reconnect (after the resolve, the TCP connect, the CONNECT write, each piece of the CONNACK and every handler these queue), same monitors.',
